@@ -142,21 +142,43 @@ func (f *filler) i64() int64 {
 	return int64(f.r.Intn(100000))
 }
 
+// bigBoundaries: the edges of the BigInt/BigDec value range (|x| < 2^255, 77 decimal digits) and of
+// the machine integers inside it, each with both signs.
+func bigBoundaries() []*big.Int {
+	pow := func(b, e int64) *big.Int { return new(big.Int).Exp(big.NewInt(b), big.NewInt(e), nil) }
+	sub1 := func(x *big.Int) *big.Int { return new(big.Int).Sub(x, big.NewInt(1)) }
+	pos := []*big.Int{
+		big.NewInt(1), sub1(pow(2, 255)), pow(10, 76), sub1(pow(10, 76)), pow(2, 63), sub1(pow(2, 63)),
+		pow(2, 64), sub1(pow(2, 254)), pow(10, 18), sub1(pow(10, 77-1)),
+	}
+	out := []*big.Int{big.NewInt(0)}
+	for _, p := range pos {
+		out = append(out, p, new(big.Int).Neg(p))
+	}
+	return out
+}
+
+var bigEdges = bigBoundaries()
+
 func (f *filler) big() *big.Int {
 	switch f.mode {
 	case modeEmpty:
-		return big.NewInt(0)
+		return new(big.Int).Set(bigEdges[f.r.Intn(3)]) // 0, 1, -1
 	case modeMax:
-		x := new(big.Int).Lsh(big.NewInt(1), 255)
-		return x.Sub(x, big.NewInt(1))
+		// the extremes of the range, both signs: ±(2^255-1), ±10^76
+		return new(big.Int).Set(bigEdges[3+f.r.Intn(4)])
 	}
-	switch f.r.Intn(6) {
-	case 0:
-		return big.NewInt(0)
-	case 1:
+	switch f.r.Intn(9) {
+	case 0, 1, 2:
+		return new(big.Int).Set(bigEdges[f.r.Intn(len(bigEdges))])
+	case 3:
 		return big.NewInt(-int64(f.r.Intn(1000)))
-	case 2:
-		return new(big.Int).SetBytes(f.r.Bytes(1 + f.r.Intn(31)))
+	case 4:
+		x := new(big.Int).SetBytes(f.r.Bytes(1 + f.r.Intn(31)))
+		if f.r.Bool() {
+			x.Neg(x)
+		}
+		return x
 	}
 	return big.NewInt(int64(f.r.Intn(2000000000)))
 }
@@ -231,7 +253,22 @@ func (f *filler) fill(v reflect.Value, depth int) {
 			v.Set(reflect.Zero(t))
 			return
 		}
-		v.Set(reflect.ValueOf(sdk.NewDecFromBigIntWithPrec(f.big(), 18)))
+		raw := f.big()
+		// BigDec arithmetic admits 255 + DecimalPrecisionBits = 315 bits for the scaled integer: the
+		// edges of that range too (±2^255, ±(2^315-1)), with both signs
+		if (f.mode == modeMax && f.r.Bool()) || (f.mode == modeRand && f.r.Chance(1, 8)) {
+			raw = new(big.Int).Lsh(big.NewInt(1), []uint{255, 256, 314, 315}[f.r.Intn(4)])
+			if f.r.Bool() {
+				raw.Sub(raw, big.NewInt(1))
+			}
+			if raw.BitLen() > 315 {
+				raw.Sub(raw, big.NewInt(1))
+			}
+			if f.r.Bool() {
+				raw.Neg(raw)
+			}
+		}
+		v.Set(reflect.ValueOf(sdk.NewDecFromBigIntWithPrec(raw, 18)))
 		return
 	case tTime:
 		v.Set(reflect.ValueOf(f.timeVal()))
